@@ -14,6 +14,7 @@ ALL_OPS = ["set", "insert", "delete_channel", "set_ncomp", "group", "record", "d
            "delete_stimuli", "delete_clamps", "make_trainable", "delete_trainables", "connect", "init_states", "move"]
 
 DTS = [0.025, 0.025, 0.025, 0.01, 0.05, 0.1]
+PARTNERS = {"Na": ["K"], "K": ["Na", "Km"], "Km": ["K"], "CaL": ["CaT"], "CaT": ["CaL"]}
 
 
 class DryWorld(World):
@@ -164,13 +165,20 @@ def gen_op(r, dw, weights, cfg):
         return {"op": "set", "view": view, "key": key, "val": val}
     if kind == "insert":
         cls = r.choice(cfg["channels"])
+        # bias towards channels that share a parameter column / current name with one already present
+        # (vt: Na,K; eK: K,Km; eCa: CaL,CaT; i_K: K,Km; i_Ca: CaL,CaT) on a *different but overlapping* support
+        partners = [q for c in ref.chans.values() for q in PARTNERS.get(c["cls"], []) if q in mech.CHANNELS]
+        if partners and r.random() < 0.4:
+            cls = r.choice(partners)
         name = cls + "b" if r.random() < 0.15 else None
         return {"op": "insert", "view": gen_node_view(r, ref), "cls": cls, "name": name}
     if kind == "delete_channel":
         if ref.chans and r.random() < 0.9:
             name = r.choice(list(ref.chans))
             cls = ref.chans[name]["cls"]
-            view = gen_node_view(r, ref, prefer=("channel", name) if r.random() < 0.4 else None)
+            k = r.random()
+            # whole-module and broad views cover rows with and without the other users of a shared column
+            view = [] if k < 0.3 else gen_node_view(r, ref, prefer=("channel", name) if k < 0.55 else None)
             return {"op": "delete_channel", "view": view, "cls": cls, "name": name if name != cls else None}
         return {"op": "delete_channel", "view": [], "cls": r.choice(cfg["channels"]), "name": None}
     if kind == "set_ncomp":
@@ -233,7 +241,8 @@ def gen_record(r, ref):
     if ref.syns and k < 0.3:
         s = r.choice(ref.syns)
         st = r.choice(list(s["states"]) + [f"i_{s['name']}"])
-        return {"op": "record", "view": gen_edge_view(r, ref, s["name"]), "state": st}
+        view = [["syn", s["name"]]] if r.random() < 0.5 else gen_edge_view(r, ref, s["name"])
+        return {"op": "record", "view": view, "state": st}
     if cands and k < 0.65:
         st, own = r.choice(cands)
         return {"op": "record", "view": gen_node_view(r, ref, prefer=("channel", own)), "state": st}
